@@ -82,7 +82,7 @@ var c11RetryCalls = map[string]string{"rpub1": "pub1", "rpub1x": "pub1", "rpub2"
 var c11LockWaitAbsent bool // no call was ever seen waiting in RWMutex.RLock (library changed its locking)
 
 type c11Spec struct {
-	Fam    string   `json:"fam"` // cell | seq | handler | stray | multi | reconn
+	Fam    string   `json:"fam"` // cell | seq | handler | stray | multi | reconn | cx
 	Call   string   `json:"call,omitempty"`
 	Point  string   `json:"point,omitempty"`
 	Cause  string   `json:"cause,omitempty"`
@@ -1519,9 +1519,10 @@ func c11RunMulti(sp c11Spec) (obs c11Obs) {
 
 type c11Dialer struct {
 	mu      sync.Mutex
-	mode    string   // fail | hang | ok | gate
-	modes   []string // if set: the mode of the n-th dial (the last entry for all later ones)
-	reply   string   // what the peers answer CONNECT with when they do not accept: refuse | close | malformed
+	mode    string                            // fail | hang | ok | gate
+	modes   []string                          // if set: the mode of the n-th dial (the last entry for all later ones)
+	reply   string                            // what the peers answer CONNECT with when they do not accept: refuse | close | malformed
+	onNew   func(n int, cli *mqtt.BaseClient) // called for every client the dialer creates, before it is returned
 	gate    chan struct{}
 	ackConn bool
 	dials   int
@@ -1549,6 +1550,9 @@ func (d *c11Dialer) DialContext(ctx context.Context) (*mqtt.BaseClient, error) {
 		cli = &mqtt.BaseClient{Transport: p.conn}
 		d.peers = append(d.peers, p)
 		d.clis = append(d.clis, cli)
+		if d.onNew != nil {
+			d.onNew(d.dials, cli)
+		}
 	}
 	d.mu.Unlock()
 	select {
@@ -1832,6 +1836,160 @@ func c11RunReconn(sp c11Spec) (obs c11Obs) {
 	return obs
 }
 
+// ---------------------------------------------------------------- Connect's context ending at each point
+
+// c11RunCx: the context given to reconnectClient.Connect ends at sp.Phase — beforedial, duringdial,
+// aftersetclient (inside BaseClient.Connect, before CONNECT is written: through a ConnectOption), connackwait,
+// inactivecb (inside the ConnState(StateActive) callback of the dialled client: CONNACK accepted, hand-off not yet
+// done; the callback returns only after the outer Connect has returned), afterreturn — followed by sp.Kind:
+// disconnect (generous deadline), peerclose (a redial must follow), nothing.
+func c11RunCx(sp c11Spec) (obs c11Obs) {
+	wait := c11Limit()
+	sc := c11NewScope()
+	bg := context.Background()
+	d := &c11Dialer{wake: make(chan struct{}, 1), mode: "ok"}
+	switch sp.Phase {
+	case "duringdial":
+		d.mode, d.gate = "gate", make(chan struct{})
+	case "inactivecb", "afterreturn":
+		d.ackConn = true
+	}
+	ctx, cancel := context.WithCancel(bg)
+	connReturned := make(chan struct{})
+	active := make(chan struct{}, 8)
+	waitOuter := func() {
+		select {
+		case <-connReturned:
+		case <-time.After(c11Wait):
+		}
+	}
+	d.onNew = func(n int, c *mqtt.BaseClient) {
+		c.ConnState = func(st mqtt.ConnState, err error) {
+			if st != mqtt.StateActive {
+				return
+			}
+			select {
+			case active <- struct{}{}:
+			default:
+			}
+			if n == 1 && sp.Phase == "inactivecb" {
+				cancel()
+				waitOuter() // the caller of Connect has left before the loop hands the result over
+			}
+		}
+	}
+	cli, err := mqtt.NewReconnectClient(d, mqtt.WithReconnectWait(time.Millisecond, 4*time.Millisecond))
+	if err != nil {
+		obs.c11Res = c11Res{Res: "other", Detail: err.Error()}
+		return obs
+	}
+	var nOpt int32
+	opt := func(*mqtt.ConnectOptions) error {
+		// 1st call: reconnectClient.Connect reading the options; 2nd: BaseClient.Connect of the dialled client
+		if atomic.AddInt32(&nOpt, 1) == 2 && sp.Phase == "aftersetclient" {
+			cancel()
+			waitOuter()
+		}
+		return nil
+	}
+	disconnectCalled := false
+	var connCh chan c11Ret
+	defer func() {
+		cancel()
+		if !disconnectCalled {
+			dctx, dcancel := ctxTimeout(wait)
+			if _, ok := c11Await(c11Go(func() error { return cli.Disconnect(dctx) }), wait); !ok {
+				obs.AuxStuck += "final Disconnect "
+			}
+			dcancel()
+		}
+		d.mu.Lock()
+		clis := append([]*mqtt.BaseClient{}, d.clis...)
+		d.mu.Unlock()
+		for _, c := range clis {
+			c11CloseG(c, &obs.AuxStuck)
+		}
+		if connCh != nil {
+			if _, ok := c11Await(connCh, wait); !ok {
+				obs.AuxStuck += "Connect "
+			}
+		}
+		if ok, left := sc.waitNone(nil, wait); !ok {
+			obs.Leak = left
+			obs.LeakAt = sc.stackOfNew()
+		}
+	}()
+	if sp.Phase == "beforedial" {
+		cancel()
+	}
+	connCh = c11Go(func() error { _, err := cli.Connect(ctx, "cid", opt); return err })
+	switch sp.Phase {
+	case "duringdial":
+		d.waitDials(1, wait)
+		cancel()
+	case "connackwait":
+		d.waitDials(1, wait)
+		if p := d.lastPeer(); p != nil {
+			p.waitSeen(0x10, 1, nil, wait)
+		}
+		cancel()
+	}
+	r, ok := c11Await(connCh, wait)
+	if ok {
+		connCh = nil
+		obs.c11Res = c11Classify(r, ctx)
+	} else {
+		obs.c11Res = c11Res{Res: "stuck"}
+	}
+	close(connReturned)
+	if sp.Phase == "afterreturn" {
+		cancel() // too late to matter
+	}
+	established := sp.Phase == "inactivecb" || sp.Phase == "afterreturn"
+	if established {
+		select {
+		case <-active:
+			obs.Mid = true // the first connection was established
+		case <-time.After(c11Clamp(wait)):
+			c11Expired(wait)
+		}
+	} else {
+		// no connection: the loop must go away by itself, its context has ended
+		obs.LoopGone, _ = sc.waitNone(c11IsLoop, wait)
+	}
+	switch sp.Kind {
+	case "disconnect":
+		disconnectCalled = true
+		dctx, dcancel := ctxTimeout(3 * c11Wait) // generous: its expiry never explains a return
+		defer dcancel()
+		dch := c11Go(func() error { return cli.Disconnect(dctx) })
+		if r, ok := c11Await(dch, wait); ok {
+			obs.ExclRet = r.err == nil && r.panicked == ""
+			if !obs.ExclRet {
+				obs.Note = fmt.Sprintf("Disconnect returned %v %s", r.err, r.panicked)
+			}
+		} else {
+			obs.Note = "Disconnect did not return although the connection has ended"
+			go func() { <-dch }()
+		}
+		obs.LoopGone, _ = sc.waitNone(c11IsLoop, wait)
+	case "peerclose":
+		if p := d.lastPeer(); p != nil {
+			p.ended = true
+			p.conn.finish()
+		}
+		obs.ExclRet = d.waitDials(2, wait) // the loop supervises the connection: a redial follows
+		obs.LoopGone = true
+	default:
+		obs.ExclRet = true
+		if established {
+			// the loop goroutine supervises the established connection
+			obs.LoopGone = len(sc.find(c11IsLoop)) > 0
+		}
+	}
+	return obs
+}
+
 // ---------------------------------------------------------------- child process
 
 func runC11Child(cfg *runCfg) error {
@@ -1854,6 +2012,8 @@ func runC11Child(cfg *runCfg) error {
 			switch sp.Fam {
 			case "cell":
 				o = c11RunCell(sp)
+			case "cx":
+				o = c11RunCx(sp)
 			case "handler":
 				o = c11RunHandler(sp)
 			case "seq":
@@ -2377,6 +2537,37 @@ func runC11(cfg *runCfg) error {
 			}
 		}
 	}
+	// ---- the reconnecting Connect's context ending at each point of the first connection's establishment
+	var cxCases []string
+	cxPoints := []string{"beforedial", "duringdial", "aftersetclient", "connackwait", "inactivecb", "afterreturn"}
+	cxFollows := []string{"disconnect", "peerclose", "nothing"}
+	for round := 0; round < rounds; round++ {
+		for pi, p := range cxPoints {
+			for fi, f := range cxFollows {
+				if f == "peerclose" && pi < 4 {
+					continue // no connection was established
+				}
+				if over() {
+					skipped++
+					continue
+				}
+				sp := c11Spec{Fam: "cx", Phase: p, Kind: f}
+				o, err := exec1(sp)
+				if err != nil {
+					return err
+				}
+				cxCases = append(cxCases, cTuple(fmt.Sprint(pi), fmt.Sprint(fi), fmt.Sprint(c11ResCode[o.Res]), cBool(o.Mid), cBool(o.ExclRet), cBool(o.LoopGone),
+					cBool(len(o.Leak) > 0 || o.AuxStuck != "" || o.Crash != "")))
+				m.Families["cx"] = append(m.Families["cx"], map[string]interface{}{"connect_context_ends": p, "then": f, "observed": o})
+				dist["cx_"+o.Res]++
+				nontrivial++
+			}
+		}
+	}
+	cf.def("cx_cases", "list c11_cx_case", cList(cxCases))
+	cf.result("V_cx", "c11_cx_violations cx_cases")
+	cf.result("M_cx", "c11_cx_mismatches cx_cases")
+
 	// ---- probe (not a matrix cell): Disconnect while the FIRST dial is still in progress, the dial then
 	// succeeds. RetryClient.Disconnect finds no task channel to close, SetClient afterwards starts the task
 	// goroutine of a client that is already stopped: it can never end. Reported as signature F19 once the
@@ -2418,7 +2609,8 @@ func runC11(cfg *runCfg) error {
 	m.Distribution["stray_space"] = len(straySpecs)
 	m.Distribution["seq_scenarios"] = len(seqCases)
 	m.Distribution["handler_scenarios"] = len(hCases)
-	m.Evaluations = len(hCases) + len(cellCases) + len(seqCases) + len(strayCases) + len(multiCases) + len(rcCases)
+	m.Distribution["cx_scenarios"] = len(cxCases)
+	m.Evaluations = len(cxCases) + len(hCases) + len(cellCases) + len(seqCases) + len(strayCases) + len(multiCases) + len(rcCases)
 	m.DistinctNontrivial = nontrivial
 	m.Exhaustive = skipped == 0
 	m.Rule = fmt.Sprintf("the whole matrix of Calls.v (%d cells: 9 calls x {waiting for the connect lock, before the write, parked in the 1st select, parked in the 2nd select} x {cancel, deadline, Close, Disconnect, peer close, malformed packet}) executed %d time(s) on a real BaseClient over an in-memory transport whose scripted peer withholds exactly the awaited answer (parked = request seen on the wire); %d of the %d 'stray acknowledgement' scenarios ({no call, QoS1, QoS2 at PUBREC, QoS2 at PUBCOMP, Subscribe, Unsubscribe, Ping parked} x {cancel, Close, Disconnect, peer close, malformed} x {1,2,3} x {PINGRESP after an answered / a timed-out Ping; repeated CONNACK; PUBACK, PUBREC, PUBCOMP, SUBACK, UNSUBACK duplicating a completed exchange / for an identifier never used}; a marker PUBLISH handed to the handler shows the reader consumed them; then the cause); %d scenarios with 2-6 random calls parked on one connection (in every third one the contexts of a random subset are cancelled first) and one connection end; %d scenarios of the reconnecting client (Connect with failing/hanging dials or CONNACK withheld + cancel/deadline; Disconnect in six phases). distinct_nontrivial = scenarios in which a call is really blocked when the cause strikes (everything except the 'before the write' cells)", len(specs), rounds, strayRun, len(straySpecs), nMulti, len(rcCases))
